@@ -466,6 +466,22 @@ class LebCase(Case):
         ctx.prove("no-fault-swallowed", not any(x[2] for x in s.log))
 
     def native(self, inputs):
+        """Replay the model's value; if that one does not fail natively (the failed obligation was about an arbitrary
+        loop state, not about the input), search boundary values for a native failure of the same contract."""
+        first = self._native_one(inputs)
+        if first is None or first.get("reproduced"):
+            return first
+        cands = [0, 1, 2, 63, 64, 65, 127, 128, 129, 255, 8191, 8192, 16383, 16384, 1 << 20, (1 << 21) - 1, 1 << 35, (1 << 63), (1 << 70) + 5]
+        if self.signed:
+            cands += [-1, -2, -63, -64, -65, -127, -128, -129, -8192, -8193, -(1 << 20), -(1 << 63) - 1]
+        for x in cands:
+            r = self._native_one({"x": x, "v": x})
+            if r and r.get("reproduced"):
+                r["note"] = "the solver's model did not fail natively (obligation about an arbitrary loop state); found by boundary search"
+                return r
+        return first
+
+    def _native_one(self, inputs):
         cs = make_cs("<")
         T = cs.ileb128 if self.signed else cs.uleb128
         x = inputs.get("x", inputs.get("v"))
@@ -649,6 +665,80 @@ class ArrayCase(Case):
                 ctx.prove("terminator-is-one-zero-element", z3.And(*[zint(x) == 0 for x in items[2 * n:]]))
 
 
+def _array_native(self, inputs):
+    """Native replay of the array entry points against a plain-python reference."""
+    import io as _io
+
+    from dissect.cstruct.types.base import EOF
+
+    cs = make_cs(self.endian)
+    T = getattr(cs, self.tname)
+    n = sizeof(self.tname)
+    order = ORDER[self.endian]
+    if "D" not in inputs:
+        return None
+    data = bytes.fromhex(inputs["D"])
+    p = inputs["p"]
+    if self.op in ("read_0", "read_0_any") and not inputs.get("_extended"):
+        # a counter-model of the inductive step describes one arbitrary iteration: complete it with a terminator
+        r = _array_native(self, {**inputs, "D": (data + bytes(max(0, p - len(data))) + bytes(2 * n)).hex() if len(data) <= p or True else inputs["D"], "_extended": True})
+        if r and r.get("reproduced"):
+            r["note"] = "input = the solver's model followed by a zero terminator"
+            return r
+    s = _io.BytesIO(data)
+    s.seek(p)
+    avail = data[p:]
+
+    def dec(chunk):
+        return scalars.py_decode(self.tname, chunk, order)
+
+    try:
+        if self.op == "read_array_n":
+            cnt = inputs.get("count", 0)
+            got = T._read_array(s, cnt)
+            want_ok = cnt == 0 or len(avail) >= cnt * n
+            exp = [dec(avail[i * n : (i + 1) * n]) for i in range(cnt)] if self.tname not in ("char", "wchar") else dec(avail[: cnt * n])
+        elif self.op == "read_array_eof":
+            got = T._read_array(s, EOF)
+            want_ok = len(avail) % n == 0
+            exp = [dec(avail[i : i + n]) for i in range(0, len(avail) - len(avail) % n, n)]
+        elif self.op in ("read_0", "read_0_any"):
+            got = T._read_0(s)
+            els = []
+            i = 0
+            want_ok = False
+            while i + n <= len(avail):
+                ch = avail[i : i + n]
+                i += n
+                if ch == bytes(n):
+                    want_ok = True
+                    break
+                els.append(ch)
+            exp = [dec(c) for c in els] if self.tname not in ("char", "wchar") else dec(b"".join(els))
+        else:
+            return None
+    except EOFError:
+        return {"reproduced": bool(want_ok) if "want_ok" in dir() else False, "observed": f"raises EOFError with {len(avail)} bytes available"} if False else {
+            "reproduced": _expected_ok(self, inputs, avail, n), "observed": f"raises EOFError with {len(avail)} bytes available"}
+    except Exception as e:  # noqa: BLE001
+        return {"reproduced": self.op != "read_array_eof", "observed": f"raises {type(e).__name__}: {e}"}
+    same = (list(got) == list(exp)) if isinstance(exp, list) else scalars.py_same(got, exp)
+    return {"reproduced": (not want_ok) or (not same), "observed": f"returned {got!r}, reference {'returns ' + repr(exp) if want_ok else 'refuses (input too short)'}"}
+
+
+def _expected_ok(self, inputs, avail, n):
+    """Would the reference have returned a value (so that an EOFError is a failure)?"""
+    if self.op == "read_array_n":
+        cnt = inputs.get("count", 0)
+        return cnt == 0 or len(avail) >= cnt * n
+    if self.op in ("read_0", "read_0_any"):
+        return any(avail[i : i + n] == bytes(n) for i in range(0, len(avail) - n + 1, n))
+    return False
+
+
+ArrayCase.native = _array_native
+
+
 def make_array(tname, endian, op):
     return ArrayCase(tname, endian, op)
 
@@ -772,6 +862,9 @@ class Read0Case(LeafCase):
         ctx.prove("stops-at-the-first-zero-element", z3.And(*[zint(b) == 0 for b in el]) if self.tname not in PACKED_FLOAT else True)
         ctx.prove("terminator-consumed", ctx.eq(s.pos, _norm(zint(p) + (k + 1) * n)))
         ctx.prove("terminator-not-appended", len(loop.lst.appended) == 0)
+
+
+Read0Case.native = _array_native
 
 
 def make_read0(tname, endian):
